@@ -41,9 +41,9 @@ def body_template(name: str, cvk: int, tvk: int, avk: int, ovk: int, dvk: int, s
     ct = T.COMPILED[name]
     items = []
     if nitems >= 1:
-        items.append([None, s1, "k"][i1k])
+        items.append([None, s1, "PLAINITEM"][i1k])
     if nitems >= 2:
-        items.append([None, s2, "k"][i2k])
+        items.append([None, s2, "PLAINITEM"][i2k])
     real, ref = T.build(cvk, tvk, avk, ovk, dvk, s1, s2, n, items)
     before = T.snapshot(real)
     try:
